@@ -11,6 +11,7 @@ import (
 
 	"github.com/agnivade/levenshtein"
 	"github.com/smarthome-go/homescript/v3/homescript/errors"
+	"golang.org/x/text/unicode/norm"
 )
 
 type ValueString struct {
@@ -161,6 +162,9 @@ func (self ValueString) IntoIter() func() (Value, bool) {
 
 func NewValueString(inner string) *Value {
 	zero := 0
-	val := Value(ValueString{Inner: inner, currIterIdx: &zero})
+	// Like the VM's value library: strings are kept in NFC, so that canonically equivalent texts are equal
+	// and render identically on both backends.
+	normalized := norm.NFC.String(inner)
+	val := Value(ValueString{Inner: normalized, currIterIdx: &zero})
 	return &val
 }
